@@ -791,11 +791,17 @@ static std::string run_free_case(std::vector<std::string> const &w,int backend)
 		}));
 	}
 	for(size_t i=0;i<ths.size();i++) ths[i].join();
-	// quiescence: cancel/close everything, then drain with a chain of posts
-	for(size_t i=0;i<ps.size();i++) { error_code e; ps[i]->s->close(e); }
+	// quiescence: cancel/close everything, then drain with a chain of posts.  The sockets are closed ON THE LOOP
+	// THREAD (first posted closure): basic_io_device::close() from another thread while the loop polls queues the
+	// cancel but closes the descriptor at once, so the loop thread's epoll_ctl(DEL) can run between the two - a
+	// descriptor-level race (ThreadSanitizer reports it as "data race ... close_file_descriptor" vs epoll_ctl under
+	// data_mutex_).  That hazard is exercised deterministically by the lock-step `cl:f`-while-polling scenarios
+	// (known finding aio-queued-arm-overtaken-by-cancel-close, fd re-use cases); the TSan stream is about memory.
 	std::mutex dm; std::condition_variable dcv; int rounds_done=0;
 	for(int k=0;k<4;k++) {
-		srv.post([&]{ std::unique_lock<std::mutex> lk(dm); rounds_done++; dcv.notify_all(); });
+		srv.post([&,k]{
+			if(k==0) for(size_t i=0;i<ps.size();i++) { error_code e; ps[i]->s->close(e); }
+			std::unique_lock<std::mutex> lk(dm); rounds_done++; dcv.notify_all(); });
 		std::unique_lock<std::mutex> lk(dm);
 		if(!dcv.wait_for(lk,std::chrono::seconds(20),[&]{return rounds_done==k+1;})) {
 			// the loop does not answer any more: a lost wake-up or a dead loop
